@@ -353,10 +353,10 @@ theorem assignList_typed {p : PropRec} (vs : List PyVal) (h : Typed p) : Typed (
     have hall := (check_ok_list hchk).2
     split
     · exact h
-    · rename_i cells hconv
-      split
+    · split
       · exact h
-      · rcases convertAll_spec hall with ⟨cs, hcs, _, _, hok⟩ | ⟨he, _⟩
+      · rename_i cells hconv
+        rcases convertAll_spec hall with ⟨cs, hcs, _, _, hok⟩ | ⟨he, _⟩
         · rw [hcs] at hconv
           cases hconv
           exact hok
@@ -379,14 +379,14 @@ theorem assignList_result (p : PropRec) (vs : List PyVal) :
     exact ⟨e, by simp [assignList, hchk], Or.inl rfl⟩
   | ok u =>
     have hall := (check_ok_list hchk).2
-    rcases convertAll_spec hall with ⟨cs, hcs, hspec, _, _⟩ | ⟨he, _⟩
-    · by_cases hn : cs.any Cell.hasNul = true
-      · right; right
-        exact ⟨by simp [assignList, hchk, hcs, hn], rfl⟩
+    by_cases hn : textRefused p.dtype vs = true
+    · right; right
+      exact ⟨by simp [assignList, hchk, hn], rfl⟩
+    · rcases convertAll_spec hall with ⟨cs, hcs, hspec, _, _⟩ | ⟨he, _⟩
       · left
         exact ⟨cs, by simp [assignList, hchk, hcs, hn], hspec, rfl⟩
-    · right; left
-      exact ⟨.overflowError, by simp [assignList, hchk, he], Or.inr ⟨rfl, rfl⟩⟩
+      · right; left
+        exact ⟨.overflowError, by simp [assignList, hchk, he, hn], Or.inr ⟨rfl, rfl⟩⟩
 
 /-- the four ways the `values` setter can go -/
 theorem setValues_cases (p : PropRec) (inp : Input) :
@@ -558,14 +558,15 @@ theorem extendValues_cases (p : PropRec) (inp : Input) (hwf : inp.WF = true) :
   cases hchk : checkNewValueTypes p.dtype inp with
   | error e => left; exact ⟨e, rfl, by simp [extendValues, hchk]⟩
   | ok u =>
-    rcases inputCells_spec hwf hchk with ⟨cs, hcs, hspec, hok⟩ | ⟨hov, _⟩
+    rcases inputCells_spec hwf hchk with ⟨cs, hcs, hspec, hok⟩ | ⟨hov, hd⟩
     · right; right
       refine ⟨cs, rfl, hspec, hok, ?_⟩
-      by_cases hn : cs.any Cell.hasNul = true
-      · right; simp [extendValues, hchk, hcs, hn]
+      by_cases hn : textRefused p.dtype inp.elems = true
+      · right; simp [extendValues, hchk, hn]
       · left; simp [extendValues, hchk, hcs, hn]
     · right; left
-      exact ⟨rfl, by simp [extendValues, hchk, hov]⟩
+      have hn : textRefused p.dtype inp.elems = false := by simp [textRefused, hd]
+      exact ⟨rfl, by simp [extendValues, hchk, hov, hn]⟩
 
 theorem extendValues_head (p : PropRec) (inp : Input) :
     SameHead p (extendValues p inp).1 ∧ (extendValues p inp).1.attrs = p.attrs := by
